@@ -123,6 +123,9 @@ func parseTtl(s string) *needle.TTL {
 }
 
 func doApp(x ndl) (off int64, nsize int32, ok bool) {
+	if overtime() {
+		return
+	}
 	args := []string{hx.U(uint64(x.cookie)), hx.U(x.id), hx.I(int64(x.flags)), hx.Hex(x.data), hx.Hex(x.name), hx.Hex(x.mime), hx.U(x.lm), x.ttl,
 		hx.Hex(x.pairs), hx.I(int64(x.pairsSize)), hx.U(x.ts)}
 	tr.Op("app", args, hx.Guard(func() []string {
@@ -148,6 +151,9 @@ func doApp(x ndl) (off int64, nsize int32, ok bool) {
 }
 
 func doRaw(b []byte) {
+	if overtime() {
+		return
+	}
 	tr.Op("raw", []string{hx.Hex(b)}, hx.Guard(func() []string {
 		f, err := os.OpenFile(curPath, os.O_RDWR|os.O_APPEND, 0644)
 		if err != nil {
@@ -160,6 +166,9 @@ func doRaw(b []byte) {
 }
 
 func doTrunc(n int64) {
+	if overtime() {
+		return
+	}
 	tr.Op("trunc", []string{hx.I(n)}, hx.Guard(func() []string {
 		if n > fileSize() {
 			n = fileSize()
@@ -196,6 +205,9 @@ func fields(n *needle.Needle) []string {
 }
 
 func doRd(off int64, size int32) {
+	if overtime() {
+		return
+	}
 	tr.Op("rd", []string{hx.I(off), hx.I(int64(size))}, hx.Guard(func() []string {
 		df, f := openDF()
 		defer f.Close()
@@ -211,6 +223,9 @@ func doRd(off int64, size int32) {
 // one letter per bit of the record: c = CRC error, s = size mismatch, e = parse error, p = panic,
 // o = decoded to the same data, d = decoded WITHOUT error to different data, x = other error
 func doFlips(off int64, size int32) {
+	if overtime() {
+		return
+	}
 	tr.Op("flips", []string{hx.I(off), hx.I(int64(size))}, hx.Guard(func() []string {
 		df, f := openDF()
 		defer f.Close()
@@ -275,6 +290,9 @@ func (v *visitor) VisitNeedle(n *needle.Needle, offset int64, hdr, body []byte) 
 }
 
 func doScan(off int64, readBody bool) {
+	if overtime() {
+		return
+	}
 	tr.Op("scan", []string{hx.I(off), hx.B(readBody)}, hx.Guard(func() (outs []string) {
 		df, f := openDF()
 		defer f.Close()
@@ -361,6 +379,13 @@ func genNeedle(r *hx.Rng, flags byte, wf bool) ndl {
 
 var t0 = time.Now()
 
+var deadline time.Time
+
+// overtime: the generators stop once the run takes far longer than it should (e.g. a broken size formula makes
+// the scanner read garbage headers and allocate up to 2 GiB per header); the partial trace is still judged and
+// the missing coverage is reported by the check.
+func overtime() bool { return !deadline.IsZero() && time.Now().After(deadline) }
+
 func mark(s string) {
 	if os.Getenv("C02_TIMES") != "" {
 		fmt.Fprintln(os.Stderr, "TIME", s, time.Since(t0))
@@ -384,6 +409,11 @@ func main() {
 		return
 	}
 	r := hx.NewRng(a.Seed)
+	limit := 120 * time.Second
+	if a.Thorough() {
+		limit = 900 * time.Second
+	}
+	deadline = time.Now().Add(limit * time.Duration(a.Budget))
 
 	// ---- size arithmetic: every small size, boundaries, random; both versions (and version 1 formula = version 2)
 	for ver := 2; ver <= 3; ver++ {
@@ -470,6 +500,7 @@ func main() {
 				}
 				if len(x.pairs) > 20 {
 					x.pairs = x.pairs[:20]
+					x.pairsSize = uint16(len(x.pairs)) // keep the needle well-formed: a mis-sized record makes the scanner read garbage
 				}
 				if len(x.name) > 20 {
 					x.name = x.name[:9]
